@@ -34,12 +34,12 @@ def ops_lines(ops):
 
 def lh_from_tlc(s, n):
     r = s["ops"][0]
-    return ["RESET lht %d %d %d %d" % ([0, 1, 4, 16][n % 4], r["c"], r["p"], n % 3)] + ops_lines(s["ops"][1:]) + ["FIN"]
+    return ["RESET lht %d %d %d %d %d" % ([0, 1, 4, 16][n % 4], r["c"], r["p"], n % 3, n % 2)] + ops_lines(s["ops"][1:]) + ["FIN"]
 
 
 def cache_from_tlc(s, n):
     r = s["ops"][0]
-    return ["RESET %s %d %d %d %d" % (POL[r["c"]], r["p"], r["v"] // 2, r["v"] % 2, n % 3)] + ops_lines(s["ops"][1:]) + ["FIN"]
+    return ["RESET %s %d %d %d %d %d" % (POL[r["c"]], r["p"], r["v"] // 2, r["v"] % 2, n % 3, (n // 3) % 2)] + ops_lines(s["ops"][1:]) + ["FIN"]
 
 
 def key(rng, ncls):
@@ -64,10 +64,25 @@ def put_args(rng, c, p, v, dv, puts):
     return c, p, v
 
 
+def nullify(ex):
+    """executions whose RESET asks for it hand the key object (1, 1) to the library as the NULL pointer.  The hash table
+    makes NULL a key of its own (equal to NULL only, whatever the user's equality says), so class 1 then has this one
+    key object: every (1, 2) becomes (1, 1)."""
+    if not ex or not ex[0].startswith("RESET") or ex[0].split()[-1] != "1" or len(ex[0].split()) < 7:
+        return ex
+    out = []
+    for ln in ex:
+        t = ln.split()
+        if t[0] in ("PUT", "FIND", "FINDMV", "REMOVE", "USE") and len(t) >= 3 and t[1] == "1":
+            t[2] = "1"
+        out.append(" ".join(t))
+    return out
+
+
 def lh_random(rng, nops):
     ncls = rng.choice([1, 2, 3, 4, 6])
     dv = rng.randint(0, 1)
-    lines = ["RESET lht %d %d %d %d" % (rng.choice([0, 1, 2, 8, 32]), rng.randint(0, 1), dv, rng.randint(0, 2))]
+    lines = ["RESET lht %d %d %d %d %d" % (rng.choice([0, 1, 2, 8, 32]), rng.randint(0, 1), dv, rng.randint(0, 2), rng.randint(0, 1))]
     v = 0
     puts = []
     for _ in range(nops):
@@ -95,7 +110,7 @@ def cache_random(rng, nops):
     mx = rng.choice([1, 1, 2, 2, 3, 4, 8])
     ncls = rng.choice([min(6, mx + 1), min(6, mx + 2), 6, min(6, max(1, mx))])
     dv = rng.randint(0, 1)
-    lines = ["RESET %s %d %d %d %d" % (kind, mx, rng.randint(0, 1), dv, rng.randint(0, 2))]
+    lines = ["RESET %s %d %d %d %d %d" % (kind, mx, rng.randint(0, 1), dv, rng.randint(0, 2), rng.randint(0, 1))]
     v = 0
     puts = []
     for _ in range(nops):
@@ -163,6 +178,8 @@ def run(ctx):
     ctx.add_sample({"cache_script": c_execs[-1][:14]})
     # the build directory is shared and pruned by other runs: make sure the executable (still) exists right before use
     exe = prepare(ctx)
+    lh_execs = [nullify(ex) for ex in lh_execs]
+    c_execs = [nullify(ex) for ex in c_execs]
     pipeline.drive_and_validate(ctx, exe, lh_execs, "LinkedHash", "LinkedHashTrace", "Trace.cfg", label="lht")
     exe = prepare(ctx)
     pipeline.drive_and_validate(ctx, exe, c_execs, "Cache", "CacheTrace", "Trace.cfg", label="cache")
